@@ -24,4 +24,4 @@ REQUIRED_CLASSES = {t: ["enable_after_edits", "unknown_key:enable", "unknown_key
                         "recompute_after_enable_without_recompute", "core_disabled_mid_session:tracklet",
                         "core_reenabled_mid_session"] for t in ("quick", "thorough")}
 run_shard, replay, minimise = make(C10Oracle, quick=(3200, 40), thorough=(6400, 60), profile="features",
-                                   cfg_kwargs={"allow_optional": True, "allow_partial_registry": True}, refusal_bias=0.15)
+                                   cfg_kwargs={"allow_optional": True, "allow_partial_registry": True, "allow_stray": True}, refusal_bias=0.15)
